@@ -10,7 +10,8 @@
     * TurnTcp: segmentation independence for every mode / stream / cut list that avoids a zero-size
       read (`_partial`), negation by witness without that hypothesis, no buffer fault for ANY input
       and any base state;
-    * Rfc4571: see the end of the file;
+    * Rfc4571: segmentation independence at FULL strength, delivered messages = reference frame parser,
+      no fault; send side: in-bounds scatter for single-buffer messages, over-read witness for several;
     * Socks5 / PseudoSsl / Http: NOT segmentation independent on the unchanged tree — witnesses;
       per-call independence when the reply is whole (`_partial`); tunnel identity once connected,
       for every cut list; HTTP additionally loses coalesced payload (witness) and its receive window
@@ -23,6 +24,7 @@ import Nice.Proofs.C17SendQueue
 import Nice.Proofs.C17Tunnel
 import Nice.Proofs.C17TurnTcp
 import Nice.Proofs.C17Handshake
+import Nice.Proofs.C17Rfc4571
 set_option maxRecDepth 100000
 namespace Nice.Props.C17
 open Nice.Sock Nice.Drv
@@ -288,6 +290,87 @@ theorem C17_pseudossl_whole_hello_partial (s : Nice.PseudoSsl.St) (hs : s.handsh
   have he2 : B2.err = false := by rw [← hB2]; exact hb.1
   simp only [Nice.PseudoSsl.recv, hs, Bool.false_eq_true, ↓reduceIte, hf1, hf2, e1, e2, show ¬ ((1 : Int) ≤ 0) by decide]
   split <;> simp [flushDown, he1, he2]
+
+/-! ## agent-level ICE-TCP framing, RFC 4571 (agent/agent.c) -/
+section Rfc4571
+open Nice.Rfc4571
+
+/-- **C17, RFC 4571 reassembly, segmentation independence** (full strength): for every byte stream
+    `s`, EVERY way `cs` of cutting it into reads (any cuts, empty reads allowed) and every out-of-band
+    classification `handled` of extracted frames, the messages handed to the application (with their
+    boundaries), the unconsumed buffered bytes, the frame bookkeeping (`frame_size`, `consumed_size`),
+    the bytes written and the error outcome are the same as when `s` arrives in one read.
+    (Raw `rfc4571_buffer_offset` / `frame_offset` are history dependent — the buffer is compacted on
+    refill — and are compared through the bytes between them.) -/
+theorem C17_rfc4571_split_independent (handled : Bytes → Bool) (s : Bytes) (cs : List Bytes) (hs : cs.flatten = s) :
+    rOut (feedAll (rfc4571M handled) (fun s => s.buf.length) {} {} cs) =
+    rOut (feedAll (rfc4571M handled) (fun s => s.buf.length) {} {} [s]) := by
+  have i1 := rfeedAll_inv handled cs [] _ (rinit_inv handled)
+  have i2 := rfeedAll_inv handled [s] [] _ (rinit_inv handled)
+  simp only [List.nil_append, hs] at i1
+  simp only [List.nil_append, List.flatten_cons, List.flatten_nil, List.append_nil] at i2
+  simp only [feedAll]
+  rw [rOut_of_inv handled s _ i1, rOut_of_inv handled s _ i2]
+
+/-- … and what is delivered is what an independent frame parser finds in the stream: the non-empty,
+    not out-of-band payloads of the complete frames, in order; the incomplete tail stays buffered. -/
+theorem C17_rfc4571_delivers_frames (handled : Bytes → Bool) (cs : List Bytes) :
+    (feedAll (rfc4571M handled) (fun s => s.buf.length) {} {} cs).2.2.msgs =
+      (parse cs.flatten.length cs.flatten).1.filter (deliverable handled) ∧
+    (feedAll (rfc4571M handled) (fun s => s.buf.length) {} {} cs).1.buf.drop
+      (feedAll (rfc4571M handled) (fun s => s.buf.length) {} {} cs).1.fo = (parse cs.flatten.length cs.flatten).2 := by
+  have i1 := rfeedAll_inv handled cs [] _ (rinit_inv handled)
+  simp only [List.nil_append] at i1
+  exact ⟨i1.2.2.2.2.1, i1.2.2.2.1⟩
+
+/-- **C17, RFC 4571 reassembly, no fault**: for every stream and every cut list (socket not shut
+    down) no offset leaves the 65537-byte `rfc4571_buffer`: `frame_offset ≤ buffer_offset ≤ size`,
+    the fault flag of the model (every bounds check and unsigned subtraction) stays clear. -/
+theorem C17_rfc4571_no_fault (handled : Bytes → Bool) (cs : List Bytes) :
+    (feedAll (rfc4571M handled) (fun s => s.buf.length) {} {} cs).1.fault = false ∧
+    (feedAll (rfc4571M handled) (fun s => s.buf.length) {} {} cs).1.fo ≤
+      (feedAll (rfc4571M handled) (fun s => s.buf.length) {} {} cs).1.buf.length ∧
+    (feedAll (rfc4571M handled) (fun s => s.buf.length) {} {} cs).1.buf.length ≤ BUFSIZE := by
+  have i1 := rfeedAll_inv handled cs [] _ (rinit_inv handled)
+  obtain ⟨⟨a, b, c, _, _⟩, _⟩ := i1
+  exact ⟨a, b, c⟩
+
+/-- non-vacuity: three frames (one empty), cut in the middle of a length prefix and of a payload -/
+example : (feedAll (rfc4571M fun _ => false) (fun s => s.buf.length) {} {}
+    [[0, 3, 0x41, 0x42], [0x43, 0, 0, 0], [1, 0x44, 0, 5, 0x45]]).2.2.msgs = [[0x41, 0x42, 0x43], [0x44]] := by decide
+example : (rOut (feedAll (rfc4571M fun _ => false) (fun s => s.buf.length) {} {}
+    [[0, 3, 0x41, 0x42], [0x43, 0, 0, 0], [1, 0x44, 0, 5, 0x45]])).leftover = [0, 5, 0x45] := by decide
+
+/-- **over-read on send** (negation of in-bounds scatter for several buffers): any message of a
+    0xF900-byte buffer followed by a 0x1000-byte buffer.  Its second packet starts at offset 0xF800 of
+    the FIRST buffer, where 256 bytes remain, but the scatter entry built for it is
+    MIN (buffer size, packet_len) = 0x1100 bytes long: 0x1000 bytes past the end of the buffer.
+    (corpus/C17/abort/rfc4571_send_overread.ops: ASan heap-buffer-overflow in the real code.) -/
+theorem C17_rfc4571_send_overread (b0 b1 : Bytes) (h0 : b0.length = 0xF900) (h1 : b1.length = 0x1000) :
+    findStart [b0, b1] 0 0xF800 0 = (0, 0xF800, 0xF800) ∧
+    (gather [b0, b1] 0xF800 (min ((b0.length + b1.length) - 0xF800) MAX_PACKET)).2.1 = true := by
+  constructor
+  · simp [findStart, h0]
+  · simp [gather, h0, h1, MAX_PACKET]
+
+/-- a message held in ONE buffer: every packet handed to the TCP socket is the next (at most 0xF800)
+    bytes of the message, read inside the buffer -/
+theorem C17_rfc4571_send_frames (d : Bytes) (offset : Nat) (h : offset < d.length) :
+    findStart [d] 0 offset 0 = (0, offset, offset) ∧
+    (gather ([d].drop 0) offset (min (d.length - offset) MAX_PACKET)).1.flatten =
+      (d.drop offset).take (min (d.length - offset) MAX_PACKET) ∧
+    (gather ([d].drop 0) offset (min (d.length - offset) MAX_PACKET)).2.1 = false ∧
+    (gather ([d].drop 0) offset (min (d.length - offset) MAX_PACKET)).2.2 = min (d.length - offset) MAX_PACKET := by
+  have h1 : ¬ (d.length < offset) := by omega
+  have hmin : min d.length (min (d.length - offset) MAX_PACKET) = min (d.length - offset) MAX_PACKET := by omega
+  refine ⟨by simp [findStart, h1], ?_, ?_, ?_⟩
+  · simp [gather, hmin]
+  · simp only [List.drop_zero, gather, hmin, Bool.or_false, decide_eq_false_iff_not]; omega
+  · simp [gather, hmin]
+
+example : (Rfc4571.send {} [[1, 2, 3], [4]]).1.down = [[0, 4, 1, 2, 3, 4]] := by decide
+
+end Rfc4571
 
 /-! ## tcp-bsd send queue (socket/tcp-bsd.c, socket/socket.c) -/
 section SendQueue
